@@ -3,6 +3,7 @@
 package sym
 
 import (
+	"go/token"
 	"fmt"
 	"go/types"
 
@@ -72,7 +73,7 @@ func (ex *Exec) mapGet(m *Map, k Value, valT types.Type) (Value, *Term) {
 	if m == nil {
 		return zero, ex.C.False()
 	}
-	if ss, ok := k.(*SymStr); ok && m.strIdx != nil {
+	if ss, ok := k.(*SymStr); ok && m.strIdx != nil && ss.Table != nil {
 		return ex.mapGetSymStr(m, ss, valT)
 	}
 	if s, ok := isConcreteKey(k); ok && m.strIdx != nil {
@@ -95,7 +96,20 @@ func (ex *Exec) mapGet(m *Map, k Value, valT types.Type) (Value, *Term) {
 		}
 		r, ok := ex.merge(hit, e.val, res)
 		if !ok {
-			panic(unsupported("unmergeable map values under symbolic key"))
+			// values that cannot be merged into one term (slices, pointers):
+			// decide which entry is hit by forking, newest entry first (at
+			// most one present entry has a given key)
+			for i := len(m.entries) - 1; i >= 0; i-- {
+				e := m.entries[i]
+				h := ex.C.And(e.present, ex.keyEq(e.key, k))
+				if h.IsFalse() {
+					continue
+				}
+				if ex.branch(h, token.NoPos) {
+					return copyVal(e.val), ex.C.True()
+				}
+			}
+			return zero, ex.C.False()
 		}
 		res = r
 		found = ex.C.Or(found, hit)
